@@ -67,7 +67,7 @@ fn case_run(src: &mut Src, st: &mut Stats, _env: &Env) -> CaseResult {
             mutate(&a, "b", src).0
         }
         5 => src.pick(&["&s", "not_null(z, &s)", "[&s]", "s || &s", "nope(@)", "abs('x')", "nums[::0]", "length(@)", "sum(strs)", "-1", "-", "--ast", "-u", "\"é\".\"日本\"", "'😀'", "s", "strs[0]", "objs[*].s | [0]", "@", "to_string(@)", "keys(@)"]).to_string(),
-        6 => src.pick(&["s", "s2", "strs[-1]", "objs[0].s", "join('\n', strs)", "to_string(nums)", "type(@)", "'a b'", "['a b', s]", "s == 'a b' || 'x y z'", "length('a b c')", "contains('a b', ' ')", "{k: 'p q'}"]).to_string(),
+        6 => src.pick(&["'tail\n'", "'\n'", "'cr lf\r\n'", "'\n\n'", "['a\n']", "join('', ['x', '\n'])", "' '", "''", "s", "s2", "strs[-1]", "objs[0].s", "join('\n', strs)", "to_string(nums)", "type(@)", "'a b'", "['a b', s]", "s == 'a b' || 'x y z'", "length('a b c')", "contains('a b', ' ')", "{k: 'p q'}"]).to_string(),
         _ => "@".to_string(),
     };
     let expr = if src.chance(60) { src.pick(&["s", "strs[1]", "rows[-1].name", "@", "length(rows)", "rows[*].name | [0]", "join('\n', strs)", "pad"]).to_string() } else { expr };
